@@ -472,3 +472,171 @@ Section DirectPaths.
       rewrite E. ring.
   Qed.
 End DirectPaths.
+
+(* ===================================================================== *)
+(* Part F: the general theorem — any number of interior interfaces.          *)
+(* One record per interior interface of the ray (all real, sub-critical regime).  F, G are
+   the forward / reverse displacement coefficients; the other fields are the cosines of the
+   incidence and outgoing angles, and velocity and density of the incoming and outgoing legs. *)
+Record ifr := mkIfr { fF : R; fG : R; fcin : R; fcout : R; fvin : R; fvout : R; frin : R; frout : R; fsgn : bool }.
+
+Definition ifr_pos (x : ifr) : Prop :=
+  0 < fcin x /\ 0 < fcout x /\ 0 < fvin x /\ 0 < fvout x /\ 0 < frin x /\ 0 < frout x.
+Definition ifr_gamma (x : ifr) : R := fvin x * (fcout x * fcout x) / (fvout x * (fcin x * fcin x)).
+Definition ifr_sign (x : ifr) : R := if fsgn x then -1 else 1.
+(* the Stokes relation in displacement units at this interface (discharged by ratio_front_L,
+   ratio_front_T, ratio_refl_LT, ratio_refl_TL, ratio_refl_LL, ratio_refl_TT) *)
+Definition ifr_ratio_ok (x : ifr) : Prop :=
+  fF x * fcout x * (frout x * fvout x) = ifr_sign x * fG x * fcin x * (frin x * fvin x).
+Fixpoint ifr_chained (l : list ifr) : Prop :=
+  match l with
+  | x :: ((y :: _) as l') => fvout x = fvin y /\ frout x = frin y /\ ifr_chained l'
+  | _ => True
+  end.
+Definition rprod (f : ifr -> R) (l : list ifr) : R := fold_right (fun x p => f x * p) 1 l.
+
+Lemma rprod_pos f l : Forall (fun x => 0 < f x) l -> 0 < rprod f l.
+Proof. induction 1; unfold rprod; simpl; [lra|]. apply Rmult_lt_0_compat; assumption. Qed.
+
+Lemma rprod_mul f g l : rprod (fun x => f x * g x) l = rprod f l * rprod g l.
+Proof. unfold rprod. induction l as [|x l IH]; simpl; [ring|]. rewrite IH. ring. Qed.
+
+Lemma ifr_last_indep l : forall (z x y : ifr), last (z :: l) x = last (z :: l) y.
+Proof. induction l as [|w l IH]; intros z x y; [reflexivity|]. exact (IH w x y). Qed.
+
+Lemma ifr_last_cons (y : ifr) l x : last (y :: l) x = last l y.
+Proof. destruct l as [|z l]; [reflexivity|]. exact (ifr_last_indep l z x y). Qed.
+
+(* telescoped Stokes relations *)
+Lemma ifr_telescope l : Forall ifr_ratio_ok l ->
+  rprod fF l * rprod fcout l * rprod (fun x => frout x * fvout x) l
+  = rprod ifr_sign l * rprod fG l * rprod fcin l * rprod (fun x => frin x * fvin x) l.
+Proof.
+  induction 1 as [|x l Hx _ IH]; unfold rprod in *; simpl; [ring|].
+  unfold ifr_ratio_ok in Hx.
+  transitivity ((fF x * fcout x * (frout x * fvout x))
+                * (fold_right (fun x0 p => fF x0 * p) 1 l * fold_right (fun x0 p => fcout x0 * p) 1 l
+                   * fold_right (fun x0 p => frout x0 * fvout x0 * p) 1 l)); [ring|].
+  rewrite Hx, IH. ring.
+Qed.
+
+(* impedances chain: prod z_out * z_in(first) = prod z_in * z_out(last) *)
+Lemma ifr_chain_z l : forall x, ifr_chained (x :: l) ->
+  rprod (fun y => frout y * fvout y) (x :: l) * (frin x * fvin x)
+  = rprod (fun y => frin y * fvin y) (x :: l) * (frout (last l x) * fvout (last l x)).
+Proof.
+  induction l as [|y l IH]; intros x H.
+  - unfold rprod. simpl. ring.
+  - destruct H as (Ev & Er & H'). specialize (IH y H'). rewrite ifr_last_cons.
+    unfold rprod in *. simpl in *. rewrite Ev, Er.
+    transitivity (frin x * fvin x * (frout y * fvout y * fold_right (fun y0 p => frout y0 * fvout y0 * p) 1 l * (frin y * fvin y))); [ring|].
+    rewrite IH. ring.
+Qed.
+
+(* gammas telescope: prod gamma * v_out(last) * (prod cos_in)^2 = v_in(first) * (prod cos_out)^2 *)
+Lemma ifr_gammas l : forall x, Forall ifr_pos (x :: l) -> ifr_chained (x :: l) ->
+  rprod ifr_gamma (x :: l) * fvout (last l x) * (rprod fcin (x :: l) * rprod fcin (x :: l))
+  = fvin x * (rprod fcout (x :: l) * rprod fcout (x :: l)).
+Proof.
+  induction l as [|y l IH]; intros x Hp Hc.
+  - inversion Hp as [|? ? (H1 & H2 & H3 & H4 & _) _]; subst. unfold rprod, ifr_gamma. simpl. field. split; lra.
+  - inversion Hp as [|? ? (H1 & H2 & H3 & H4 & _) Hp']; subst. destruct Hc as (Ev & _ & Hc').
+    specialize (IH y Hp' Hc'). rewrite ifr_last_cons.
+    inversion Hp' as [|? ? (K1 & K2 & K3 & _) _]; subst.
+    unfold rprod in *. simpl in *.
+    transitivity (ifr_gamma x * (fcin x * fcin x)
+                  * (ifr_gamma y * fold_right (fun x0 p => ifr_gamma x0 * p) 1 l * fvout (last l y)
+                     * (fcin y * fold_right (fun x0 p => fcin x0 * p) 1 l * (fcin y * fold_right (fun x0 p => fcin x0 * p) 1 l)))); [ring|].
+    rewrite IH. unfold ifr_gamma. rewrite Ev. field. split; lra.
+Qed.
+
+Lemma P_of_combine (gs rs : list R) : length gs = length rs ->
+  P_of (combine gs rs) = fold_right Rmult 1 gs.
+Proof.
+  revert rs. induction gs as [|g gs IH]; intros [|r rs] H; simpl in *; try discriminate; [reflexivity|].
+  unfold P_of in *. simpl. rewrite IH by congruence. reflexivity.
+Qed.
+
+Lemma rprod_map (f : ifr -> R) l : fold_right Rmult 1 (map f l) = rprod f l.
+Proof. unfold rprod. induction l as [|x l IH]; simpl; [reflexivity|]. rewrite IH. reflexivity. Qed.
+
+Lemma map_fst_combine (gs rs : list R) : length gs = length rs -> map fst (combine gs rs) = gs.
+Proof. revert rs. induction gs as [|g gs IH]; intros [|r rs] H; simpl in *; try discriminate; [reflexivity|]. rewrite IH by congruence. reflexivity. Qed.
+
+Lemma map_snd_combine (gs rs : list R) : length gs = length rs -> map snd (combine gs rs) = rs.
+Proof. revert rs. induction gs as [|g gs IH]; intros [|r rs] H; simpl in *; try discriminate; [reflexivity|]. rewrite IH by congruence. reflexivity. Qed.
+
+(* THE THEOREM.  x :: l = the interior interfaces in path order; r1 :: rs = the leg lengths
+   (one more than interfaces); D, A = directivity and attenuation (any values: they are the
+   same factor on both sides); f = frequency. *)
+Theorem qratio_general x l r1 rs D A f :
+  Forall ifr_pos (x :: l) -> ifr_chained (x :: l) -> Forall ifr_ratio_ok (x :: l) ->
+  length rs = length (x :: l) -> 0 < r1 -> all_pos rs -> 0 < f ->
+  let gs := map ifr_gamma (x :: l) in
+  let vlast := fvout (last l x) in let rholast := frout (last l x) in
+  let vd := virtual_distance NumR (r1 :: rs) gs in
+  let vd' := virtual_distance NumR (rev (r1 :: rs)) (map Rinv (rev gs)) in
+  let Q := D * rprod fF (x :: l) * (1 / sqrt vd) * A in
+  let Q' := D * rprod fG (x :: l) * (1 / sqrt vd') * A * sqrt (vlast / f) in
+  Q * (vlast * vlast) * rprod ifr_sign (x :: l)
+  = (frin x * fvin x * sqrt (fvin x * f) / rholast) * Q'.
+Proof.
+  intros Hpos Hch Hrat Hlen Hr1 Hrs Hf gs vlast rholast vd vd' Q Q'.
+  set (L := x :: l) in *.
+  assert (Hgpos : all_pos gs).
+  { unfold gs. clear -Hpos. induction Hpos as [|y m (H1 & H2 & H3 & H4 & _) _ IH]; simpl; constructor; [|exact IH].
+    unfold ifr_gamma. apply Rdiv_lt_0_compat; repeat apply Rmult_lt_0_compat; assumption. }
+  assert (Hlen' : length gs = length rs) by (unfold gs; rewrite map_length; symmetry; exact Hlen).
+  (* forward and reverse virtual distances *)
+  destruct (tube_eq_code r1 rs gs Hr1 Hrs Hgpos ltac:(rewrite Hlen'; apply le_n)) as [_ Hvd].
+  assert (Hxs : Forall (fun gr : R * R => fst gr <> 0) (combine gs rs)).
+  { clear -Hgpos Hlen'. revert rs Hlen'. induction Hgpos as [|g gs' Hg _ IH]; intros [|r rs] H; simpl in *; try discriminate; constructor.
+    - simpl. lra.
+    - apply IH. congruence. }
+  pose proof (reverse_virtual_distance r1 (combine gs rs) Hxs) as Erev.
+  rewrite map_fst_combine, map_snd_combine in Erev by assumption.
+  rewrite P_of_combine in Erev by assumption.
+  replace (fold_right Rmult 1 gs) with (rprod ifr_gamma L) in Erev by (unfold gs; symmetry; apply rprod_map).
+  fold vd vd' in Erev.
+  (* products *)
+  assert (Hci : 0 < rprod fcin L) by (apply rprod_pos; eapply Forall_impl; [|exact Hpos]; intros y (H1 & _); exact H1).
+  assert (Hco : 0 < rprod fcout L) by (apply rprod_pos; eapply Forall_impl; [|exact Hpos]; intros y (_ & H2 & _); exact H2).
+  pose proof (ifr_gammas l x Hpos Hch) as EG. fold L in EG. fold vlast in EG.
+  pose proof (ifr_telescope L Hrat) as ET.
+  pose proof (ifr_chain_z l x Hch) as EZ. fold L in EZ. fold vlast rholast in EZ.
+  assert (Hlastpos : 0 < vlast /\ 0 < rholast).
+  { assert (Hin : In (last l x) L).
+    { unfold L. clear. revert x. induction l as [|y l IH]; intros x; [left; reflexivity|].
+      right. rewrite ifr_last_cons. apply IH. }
+    rewrite Forall_forall in Hpos. destruct (Hpos _ Hin) as (_ & _ & _ & H4 & _ & H6). split; assumption. }
+  destruct Hlastpos as [Hvl Hrl].
+  assert (Hfirst : 0 < fvin x /\ 0 < frin x).
+  { inversion Hpos as [|? ? (_ & _ & H3 & _ & H5 & _) _]; subst. split; assumption. }
+  destruct Hfirst as [Hv0 Hr0].
+  assert (Hzo : 0 < rprod (fun y => frout y * fvout y) L).
+  { apply rprod_pos. eapply Forall_impl; [|exact Hpos]. intros y (_ & _ & _ & H4 & _ & H6). apply Rmult_lt_0_compat; assumption. }
+  assert (Hzi : 0 < rprod (fun y => frin y * fvin y) L).
+  { apply rprod_pos. eapply Forall_impl; [|exact Hpos]. intros y (_ & _ & H3 & _ & H5 & _). apply Rmult_lt_0_compat; assumption. }
+  assert (Hs2 : rprod ifr_sign L * rprod ifr_sign L = 1).
+  { clear. unfold rprod. induction L as [|y m IH]; simpl; [ring|].
+    transitivity ((ifr_sign y * ifr_sign y) * (fold_right (fun x p => ifr_sign x * p) 1 m * fold_right (fun x p => ifr_sign x * p) 1 m)); [ring|].
+    rewrite IH. unfold ifr_sign. destruct (fsgn y); ring. }
+  assert (HX : 0 < rprod fcout L / rprod fcin L) by (apply Rdiv_lt_0_compat; assumption).
+  assert (HPg : rprod ifr_gamma L = fvin x / vlast * (rprod fcout L / rprod fcin L * (rprod fcout L / rprod fcin L))).
+  { apply Rmult_eq_reg_r with (vlast * (rprod fcin L * rprod fcin L));
+      [|apply Rgt_not_eq; apply Rmult_lt_0_compat; [assumption | apply Rmult_lt_0_compat; assumption]].
+    transitivity (rprod ifr_gamma L * vlast * (rprod fcin L * rprod fcin L)); [ring|].
+    rewrite EG. field. split; lra. }
+  assert (HTR : rprod fF L * (rprod fcout L / rprod fcin L) * (rholast * vlast)
+                = rprod ifr_sign L * rprod fG L * (frin x * fvin x)).
+  { apply Rmult_eq_reg_r with (rprod fcin L * rprod (fun y => frin y * fvin y) L);
+      [|apply Rgt_not_eq; apply Rmult_lt_0_compat; assumption].
+    transitivity (rprod fF L * rprod fcout L * (rprod (fun y => frin y * fvin y) L * (rholast * vlast))); [field; lra|].
+    rewrite <- EZ.
+    transitivity ((rprod fF L * rprod fcout L * rprod (fun y => frout y * fvout y) L) * (frin x * fvin x)); [ring|].
+    rewrite ET. ring. }
+  assert (Hvd' : vd' = rprod ifr_gamma L * vd) by exact Erev.
+  exact (qratio_combination D (rprod fF L) (rprod fG L) vd vd' (rprod ifr_gamma L) A (vlast / f)
+           (fvin x) vlast (frin x) rholast f (rprod fcout L / rprod fcin L) (rprod ifr_sign L)
+           Hvd Hv0 Hvl Hr0 Hrl Hf HX Hs2 Hvd' HPg HTR eq_refl).
+Qed.
